@@ -22,6 +22,9 @@ RULE = (
     'a missing file at each position; a field missing from the first / last / some files. A case = one invocation whose whole output byte stream is parsed and compared. '
     'non-trivial = distinct (nfiles, field list, dtypes/shapes, compression, entry point) with >= 2 files or >= 2 fields'
 )
+RULE += (
+    ' Added after seeded round 9: big-endian columns (>f4, >i8, >f8, >u2) over >= 2 files in every seventh invocation.'
+)
 ASSUMPTIONS = ['all files of one invocation store a given field with the same dtype (the format has a single width per field)', 'zlib-based stand-in for python-blosc for blsc inputs']
 
 DTS = ['i2', 'i4', 'i8', 'u8', 'f4', 'f8', 'c8', 'c16', 'S5', 'u1']  # incl. types whose alignment differs from their size
